@@ -35,6 +35,21 @@ std::string c12_file_str(cppcms::http::file &f)
 	std::string data=slurp(f.data());
 	std::string r=vh::hex(f.name())+","+vh::hex(f.filename())+","+vh::hex(f.mime())+","+vh::hex(data);
 	if((long long)data.size()!=len) r+="!size="+std::to_string(len);
+	// read-back from other seek positions and through istream::read must give the same bytes
+	size_t offs[]={1,1023,1024,1025,data.size()/2,data.size()>0?data.size()-1:0};
+	for(size_t k=0;k<sizeof(offs)/sizeof(offs[0]);k++) {
+		size_t off=offs[k];
+		if(off==0 || off>=data.size()) continue;
+		std::istream &in=f.data();
+		in.clear();
+		in.seekg(off);
+		std::string got;
+		char buf[700];
+		while(in.read(buf,sizeof(buf)) || in.gcount()>0) got.append(buf,in.gcount());
+		in.clear();
+		in.seekg(0);
+		if(got!=data.substr(off)) { r+="!reread@"+std::to_string(off)+"="+std::to_string(got.size()); break; }
+	}
 	return r;
 }
 
